@@ -83,6 +83,11 @@ fn handle(line: &str, oracle: bool) -> String {
         (["DFENC", id, rest @ ..], false) => l3::op_dfenc(id, rest),
         (["DEC", h], false) => unhex(h).map(|d| l3::op_dec(&d)).unwrap_or_else(bad),
         (["DEC", h], true) => unhex(h).map(|d| l3::oracle_dec(&d)).unwrap_or_else(bad),
+        // ENC with every list in a container that has a history (stale elements behind the active part)
+        (["ENCD", n, rest @ ..], o) => match n.parse::<u16>() {
+            Ok(n) => tok::with_dirty(|| if o { l3::oracle_enc(n, rest) } else { l3::op_enc(n, rest) }),
+            _ => bad(),
+        },
         (["ENC", n, rest @ ..], o) => match n.parse::<u16>() {
             Ok(n) => if o { l3::oracle_enc(n, rest) } else { l3::op_enc(n, rest) },
             _ => match (*n, o) {
@@ -118,6 +123,10 @@ fn handle(line: &str, oracle: bool) -> String {
         },
         // sessions that also use build_generated_message: oracle only (the model answers BAD-OP as well)
         (["BUILDSEQG", rest @ ..], o) => if o { l3::oracle_buildseq_gen(rest) } else { "BAD-OP".into() },
+        (["GROW", kind, k, rest @ ..], o) => match k.parse::<usize>() {
+            Ok(k) => if o { l3::oracle_grow(kind, k, rest) } else { "BAD-OP".into() },
+            _ => bad(),
+        },
         (["BUILDREP", n, rest @ ..], o) => match n.parse::<usize>() {
             Ok(n) => l3::op_buildrep(n, rest, o),
             _ => bad(),
